@@ -1226,7 +1226,7 @@ func (d *Driver) NextDid() Event {
 			}
 			e := Event{Kind: "Binding", Creator: creator, Acc: acc, Did: did, Amount: []int64{0, 0, 0, -100, -899, -900, -901, -5000, 100}[d.R.Intn(9)]}
 			if d.R.Intn(6) == 0 {
-				e.SigMode = []string{"wrongkey", "none", "replay", "replay"}[d.R.Intn(4)]
+				e.SigMode = []string{"wrongkey", "none", "replay", "replay", "short"}[d.R.Intn(5)]
 			}
 			return e
 		case x < 70:
